@@ -158,6 +158,38 @@ def h_mask(a: Optional[int], b: Optional[int], c: Optional[int], d: Optional[int
     return H.ok()
 
 
+def h_mask_reuse(a: int, b: int, c: int, m0: bool, m1: bool, m2: bool, i: int, nb: bool) -> bool:
+    """
+    pre: 0 <= i <= 2
+    post: _
+    """
+    # the same mask object is used, written, and used again (on a vector and on a table): each use follows the mask's current bits
+    H.reset()
+    if H.skip(locals()): return True
+    vl = [a, b, c]
+    bits = [True if m0 else False, True if m1 else False, True if m2 else False]
+    v = Vector(vl, name='nm'); t = Table({'p': vl, 'q': [10, 20, 30]})
+    mask = Vector(bits)
+    first = list(v[mask]); tfirst = [list(col) for col in t[mask].cols()]
+    if not H.same_list(first, [e for e, k in zip(vl, bits) if k]): return H.fail('first use wrong')
+    mask[i] = True if nb else False
+    bits2 = list(bits)
+    for k in range(3):
+        if i == k: bits2[k] = True if nb else False
+    second = list(v[mask])
+    want = [e for e, k in zip(vl, bits2) if k]
+    if not H.same_list(second, want): return H.fail('v[mask] after mask[%r] = %r: %r, expected %r (bits %r -> %r)' % (i, nb, second, want, bits, bits2))
+    tsecond = [list(col) for col in t[mask].cols()]
+    if tsecond != [want, [e for e, k in zip([10, 20, 30], bits2) if k]]: return H.fail('t[mask] after the mask was written: %r' % (tsecond,))
+    # masks built by reflected logical operators
+    other = [True, False, True]
+    for name, r, w_ in (('list ^ mask', other ^ mask, [x != y for x, y in zip(other, bits2)]), ('list & mask', other & mask, [x and y for x, y in zip(other, bits2)]),
+                        ('list | mask', other | mask, [x or y for x, y in zip(other, bits2)])):
+        if list(r) != w_: return H.fail('%s = %r, expected %r' % (name, list(r), w_))
+        if not H.same_list(list(v[r]), [e for e, k in zip(vl, w_) if k]): return H.fail('v[%s] wrong' % name)
+    return H.ok()
+
+
 def h_index_list(a: int, b: int, c: int, i: int, j: int, n: int) -> bool:
     """
     pre: 1 <= n <= 3 and -4 <= i <= 4 and -4 <= j <= 4
@@ -372,6 +404,9 @@ def obligations(tier):
                             smoke=[[1, None, 3, 4, n, True, False, True, False, n]]))
         obs.append(dict(name='index-list[%s]' % form, fn='h_index_list', config={'form': form}, budget=90 if q else 300,
                         bounds='length 1..3, two indices symbolic in [-4,4]', smoke=[[1, 2, 3, 0, -1, 3]]))
+    obs.append(dict(name='mask-reuse', fn='h_mask_reuse', config={}, budget=120 if q else 300,
+                    bounds='3 unbounded ints, mask bits / written position / written bit symbolic: use, write the mask, use again on a vector and a table; masks from reflected ^ & |',
+                    smoke=[[1, 2, 3, True, False, True, 1, True]]))
     for step in (None, 1, -1, 2, -2, 3):
         obs.append(dict(name='table-rows[slice,step=%s]' % step, fn='h_table_rows', config={'form': 'slice', 'step': step}, budget=90 if q else 300,
                         bounds='3x2 table, every start/stop in [-5,5] or None', smoke=[[0, 0, True, True, True], [6, 6, True, True, True]]))
